@@ -1718,10 +1718,7 @@ impl Rem<Vec3A> for Vec3A {
     type Output = Self;
     #[inline]
     fn rem(self, rhs: Self) -> Self {
-        unsafe {
-            let n = m128_floor(_mm_div_ps(self.0, rhs.0));
-            Self(_mm_sub_ps(self.0, _mm_mul_ps(n, rhs.0)))
-        }
+        Self::new(self.x % rhs.x, self.y % rhs.y, self.z % rhs.z)
     }
 }
 
